@@ -192,6 +192,27 @@ def part_exit_status(fx):
                     C.violation("exit-status|%s" % ("zero-despite-failures" if rc == 0 else "nonzero-despite-all-good"),
                                 "composition %s (1=good) via %s: exit status %d" % ("".join(map(str, comp)), "stdin" if via else "argv", rc))
             C.nontrivial()
+    # long tokens (longer than the tools' line buffer), valid and invalid, alone and between ordinary ones
+    for size in ((9000, 70000) if C.tier == "thorough" else (9000,)):
+        rc, out, err = run([tool("jwt-generate"), "-q", "-k", fx["oct_alg"], "-c", "s:pad=" + "p" * size])
+        longgood = out.decode().strip()
+        if rc != 0 or longgood.count(".") != 2:
+            if C.case("long token of about %d characters can be generated" % size):
+                C.violation("exit-status|long-token-not-generated", "jwt-generate failed for a %d-character claim: %s" % (size, err.decode(errors="replace")[-200:]))
+            continue
+        longbad = longgood[:-2] + ("AA" if not longgood.endswith("AA") else "BB")
+        for via in (False, True):
+            for shape, toks in (("long valid token alone", [longgood]), ("long invalid token alone", [longbad]), ("good, long valid, good", [good[0], longgood, good[1]]),
+                                ("good, long invalid, good", [good[0], longbad, good[1]]), ("long valid then bad", [longgood, bad[0]])):
+                if not C.case("jwt-verify with a token of %d characters: %s (%s)" % (len(longgood), shape, "stdin" if via else "arguments")):
+                    continue
+                rc = verify_list(fx, toks, via)
+                allgood = all(t in good or t == longgood for t in toks)
+                C.obs((rc == 0, allgood))
+                if (rc == 0) != allgood:
+                    C.violation("exit-status|long-token|%s|%s" % ("zero-despite-failures" if rc == 0 else "nonzero-despite-all-good", "stdin" if via else "argv"),
+                                "%s via %s: exit status %d" % (shape, "stdin" if via else "argv", rc))
+                C.nontrivial()
     # long lists
     lengths = [254, 255, 256, 257, 258, 511, 512, 513, 1024] if C.tier == "thorough" else [255, 256, 257, 512]
     for n in lengths:
